@@ -39,6 +39,9 @@ def cases(draw):
     recipe = draw(gen.problem_recipe(densities=(10, 10, 10, 6, 12), styles=True, offsets=True))
     iters = st.one_of(st.sampled_from([1, 2, 3, 30, 100, 200, 400, 400]), st.integers(5, 400))
     params = draw(gen.solver_params(recipe["n"], recipe["density"], iters, cheap=False))
+    sp = draw(gen.start_points(recipe))
+    if sp is not None:
+        params = dict(params, startPoint=sp)      # the first trial is the image of x=0.5 whatever the start point
     mode = draw(st.sampled_from(["solve", "solve", "solve", "batches", "batches", "continue"]))
     if mode == "solve":
         drive = "solve"
